@@ -1,11 +1,255 @@
-// Package commitstream: stub, replaced by the component's correspondence stream.
+// Package commitstream: C08 crash-point enumeration. For every block of a generated history the
+// data directory is copied right after each durable write of Commit (verif hook), and at random
+// points outside Commit; every copy is reopened (= process death at that instant + restart), its
+// Info is checked against Tendermint's handshake rule, the interrupted block is replayed, and the
+// outcome is compared with the Lean commit-log model's prediction and with the node that never crashed.
 package commitstream
 
-import "verifharness/internal/common"
+import (
+	"encoding/hex"
+	"fmt"
+	"os"
+	"os/exec"
+	"strings"
 
-// Run is the stream entry point (seed, tier quick|thorough, scratch dir, rigodriver path, optional replay lines).
+	"github.com/rigochain/rigo-go/libs/verifhook"
+	"verifharness/internal/appdrv"
+	"verifharness/internal/apphist"
+	"verifharness/internal/common"
+	"verifharness/internal/rng"
+)
+
+type snap struct {
+	dir    string
+	k      int // durable writes completed (0 = outside commit)
+	where  string
+	labels []string
+}
+
+func cpDir(src, dst string) error {
+	_ = os.RemoveAll(dst)
+	out, err := exec.Command("cp", "-r", src, dst).CombinedOutput()
+	if err != nil {
+		return fmt.Errorf("cp: %v %s", err, out)
+	}
+	return nil
+}
+
+// blockRecs returns the records of the block in execution (since the last commit).
+func blockRecs(recs []*apphist.Rec) []*apphist.Rec {
+	last := -1
+	for i, r := range recs {
+		if r.Kind == "commit" {
+			last = i
+		}
+	}
+	var out []*apphist.Rec
+	for _, r := range recs[last+1:] {
+		if r.Kind == "begin" || (r.Kind == "tx" && r.Mode == "d") || r.Kind == "end" {
+			out = append(out, r)
+		}
+	}
+	return out
+}
+
+// recoverAndReplay opens the snapshot and plays the role of Tendermint's handshake.
+// prevH/prevHash: last fully committed block before the interrupted one; newHash: the hash the
+// uncrashed node computed for the interrupted block; blk: the interrupted block's records (with outputs).
+func recoverAndReplay(dir string, prevH int64, prevHash, newHash []byte, blk []*apphist.Rec, chainID string, gen *appdrv.Genesis) (outcome, detail string) {
+	n, err := appdrv.OpenNode(dir)
+	if err != nil {
+		return "panic", "open: " + err.Error()
+	}
+	defer n.Close()
+	n.ChainID = chainID
+	switch {
+	case n.Height == prevH+1:
+		if hex.EncodeToString(n.AppHash) != hex.EncodeToString(newHash) {
+			return "mismatch", fmt.Sprintf("reports height %d with app hash %x, the uncrashed node has %x", n.Height, n.AppHash, newHash)
+		}
+		return "ok-ahead", ""
+	case n.Height == prevH:
+		if prevH > 0 && hex.EncodeToString(n.AppHash) != hex.EncodeToString(prevHash) {
+			return "mismatch", fmt.Sprintf("reports height %d with app hash %x, expected %x", n.Height, n.AppHash, prevHash)
+		}
+	default:
+		return "mismatch", fmt.Sprintf("reports height %d, the consensus engine can reconcile only %d or %d", n.Height, prevH, prevH+1)
+	}
+	if n.Height == 0 {
+		// nothing committed yet: the consensus engine runs InitChain again
+		if p := n.InitChain(gen); p != "" {
+			return "panic", p
+		}
+	}
+	// replay the interrupted block
+	for _, r := range blk {
+		switch r.Kind {
+		case "begin":
+			o := n.BeginBlock(r.Begin.H, r.Begin.T, r.Begin.Proposer, r.Begin.Votes, r.Begin.Evid)
+			if o.Panic != "" {
+				return "panic", o.Panic
+			}
+			if got := apphist.BeginOutLine(o); got != r.Out {
+				return "mismatch", "replayed BeginBlock answers " + got + ", originally " + r.Out
+			}
+		case "tx":
+			o := n.DeliverTx(r.Tx)
+			if o.Panic != "" {
+				return "panic", o.Panic
+			}
+			_, tx := appdrv.DescribeTx(r.Tx, chainID)
+			if got := apphist.TxOutLine(o, tx != nil); got != r.Out {
+				return "mismatch", "replayed DeliverTx answers " + got + ", originally " + r.Out
+			}
+		case "end":
+			ups, p := n.EndBlock(prevH + 1)
+			if p != "" {
+				return "panic", p
+			}
+			if got := "vu=" + appdrv.ValUpsLine(ups); got != r.Out {
+				return "mismatch", "replayed EndBlock answers " + got + ", originally " + r.Out
+			}
+		}
+	}
+	h, p := n.Commit()
+	if p != "" {
+		return "panic", p
+	}
+	if hex.EncodeToString(h) != hex.EncodeToString(newHash) {
+		return "mismatch", fmt.Sprintf("replayed block commits app hash %x, the uncrashed node %x", h, newHash)
+	}
+	return "ok-replay", ""
+}
+
 func Run(seed uint64, tier, work, driver string, replay []string) *common.Result {
 	res := common.NewResult("commit", seed, tier)
-	res.Error = "stream not implemented"
+	res.Rule = "every durable write of every Commit (verif hook) and random points outside Commit of generated histories are crash points: " +
+		"the data directory copied at that instant is reopened, Info checked, the interrupted block replayed and compared with the uncrashed node " +
+		"and with the Lean commit-log model; distinct_nontrivial counts distinct (write label, position, outcome) triples"
+	r := rng.New(seed)
+	nh, maxBlocks := 3, 7
+	if tier == "thorough" {
+		nh, maxBlocks = 20, 24
+	}
+	distinct := common.Distinct{}
+	var lines, real []string
+	var meta []string
+	for hi := 0; hi < nh; hi++ {
+		hw := fmt.Sprintf("%s/c%d", work, hi)
+		_ = os.MkdirAll(hw, 0755)
+		s, err := apphist.NewSim(seed*100+uint64(hi), r.Fork(), hw, apphist.Options{MaxBlocks: maxBlocks, TxPerBlock: 4, InvalidPct: 15, WithEVM: true})
+		if err != nil {
+			res.Error = err.Error()
+			return res
+		}
+		s.Init()
+		res.Histories++
+		nblocks := r.Range(maxBlocks/2+1, maxBlocks)
+		var prevHash []byte
+		for b := 0; b < nblocks && s.N.Dead == ""; b++ {
+			var snaps []snap
+			take := func(k int, where string, labels []string) {
+				d := fmt.Sprintf("%s/snap%d", hw, len(snaps))
+				if err := cpDir(s.N.Root, d); err == nil {
+					snaps = append(snaps, snap{dir: d, k: k, where: where, labels: append([]string(nil), labels...)})
+				}
+			}
+			if !s.Begin() {
+				break
+			}
+			if r.Chance(40) {
+				take(0, "after BeginBlock", nil)
+			}
+			ntx := r.Intn(5)
+			for i := 0; i < ntx; i++ {
+				bz := s.GenTx()
+				o, _ := s.Deliver(bz)
+				s.After(bz, o)
+				if r.Chance(25) {
+					take(0, "after DeliverTx", nil)
+				}
+			}
+			if !s.End() {
+				break
+			}
+			if r.Chance(40) {
+				take(0, "after EndBlock", nil)
+			}
+			blk := blockRecs(s.Recs)
+			prevH := s.Height
+			var labels []string
+			verifhook.DurableWriteHook = func(name string) {
+				labels = append(labels, name)
+				take(len(labels), "after durable write "+name, nil)
+			}
+			ok := s.Commit()
+			verifhook.DurableWriteHook = nil
+			if !ok {
+				break
+			}
+			newHash := s.N.AppHash
+			for _, sn := range snaps {
+				outcome, detail := recoverAndReplay(sn.dir, prevH, prevHash, newHash, blk, s.N.ChainID, s.Gen)
+				_ = os.RemoveAll(sn.dir)
+				res.Evaluations++
+				lab := "outside-commit"
+				if sn.k > 0 {
+					lab = labels[sn.k-1]
+				}
+				key := fmt.Sprintf("%s@%d/%d:%s", lab, sn.k, len(labels), outcome)
+				res.Count(key)
+				distinct.Add(key)
+				lines = append(lines, fmt.Sprintf("crash labels=%s k=%d", strings.Join(labels, ","), sn.k))
+				real = append(real, outcome)
+				meta = append(meta, fmt.Sprintf("history %d block %d crash %s (k=%d of %d): %s %s", hi, prevH+1, sn.where, sn.k, len(labels), outcome, detail))
+				if outcome != "ok-replay" && outcome != "ok-ahead" {
+					kind := "crash-unsafe-midcommit"
+					if sn.k == 0 || sn.k >= len(labels)-1 {
+						kind = "crash-unsafe-boundary"
+					}
+					if outcome == "mismatch" {
+						kind = "crash-" + outcome + "-" + map[bool]string{true: "boundary", false: "midcommit"}[sn.k == 0 || sn.k >= len(labels)-1]
+					}
+					dup := false
+					for _, v := range res.Violations {
+						if v.Kind == kind {
+							dup = true
+						}
+					}
+					if !dup {
+						res.Violations = append(res.Violations, common.Violation{Property: "C08", Kind: kind,
+							Detail: meta[len(meta)-1], Ops: append(s.ReplayLines(), fmt.Sprintf("# crash point: %s (k=%d of %d writes: %s)", sn.where, sn.k, len(labels), strings.Join(labels, ",")))})
+					}
+				}
+			}
+			prevHash = newHash
+			if len(res.Samples) < 4 && len(meta) > 0 {
+				res.Samples = append(res.Samples, meta[len(meta)-1])
+			}
+		}
+		s.N.Close()
+		_ = os.RemoveAll(hw)
+	}
+	res.DistinctNontrivial = len(distinct)
+	// Lean model prediction for every crash point
+	if len(lines) > 0 {
+		mout, err := common.RunDriver(driver, "commit", lines)
+		if err != nil {
+			res.Error = err.Error()
+			return res
+		}
+		for i := range lines {
+			want := real[i]
+			if want == "mismatch" {
+				want = "panic" // the model has one "not recoverable" outcome
+			}
+			if i < len(mout) && mout[i] != want {
+				res.Disagreements = append(res.Disagreements, common.Disagreement{History: 0, Index: i, Op: lines[i], Impl: real[i] + " (" + meta[i] + ")", Model: mout[i], Ops: []string{lines[i]}})
+				if len(res.Disagreements) >= 5 {
+					break
+				}
+			}
+		}
+	}
 	return res
 }
